@@ -1020,7 +1020,7 @@ theorem appendZero_spec {a : Arr} (h : a.WF) (s : Str) :
 
 theorem Var.WF.zero_var : Var.zero.WF := ⟨Arr.WF.dense _, fun _ => rfl, fun c => (c rfl).elim⟩
 
-/-- Every operation preserves the invariant and never panics; outside the recorded divergences
+/-- Every operation preserves the invariant and never panics; outside the recorded divergence
     (`opOK`) it is the bash operation on the abstract map. -/
 theorem applyOp_spec (v : Var) (op : Op) (h : v.WF) :
     ∃ v', applyOp v op = .ok v' ∧ v'.WF ∧ (opOK v op = true → v'.abs = specOp v.abs op) := by
